@@ -84,7 +84,9 @@ def bundle(H, g, name):
         if norep else NANI
     # layer 2: no TLA+ definition; compared across realisations.  Defined only on suitable inputs.
     connected = xgi.is_connected(H)
-    b["katz"] = get("katz_centrality", lambda: pernode(xgi.katz_centrality(H), scaled), []) if connected else []
+    # defined whenever some edge joins two nodes (isolated nodes get zero, Note [2] of its documentation)
+    b["katz"] = get("katz_centrality", lambda: pernode(xgi.katz_centrality(H), scaled), []) \
+        if any(len(m) >= 2 for m in H._edge.values()) else []
     sizes = {len(m) for m in H._edge.values()}
     uniform = len(sizes) == 1 and min(sizes) >= 2
     b["dassort"] = get("dynamical_assortativity", lambda: scaled(xgi.dynamical_assortativity(H)), NANI) \
